@@ -62,6 +62,11 @@ func (e *ExtensionNode) decodeBinaryWithDepth(r *io.BinReader, depth int) {
 	r.ReadBytes(e.key)
 	no := new(NodeObject)
 	no.decodeBinaryWithDepth(r, depth+1)
+	if r.Err == nil && isEmpty(no.Node) {
+		// There's always something under the extension (see Size also).
+		r.Err = errors.New("extension node with empty next node")
+		return
+	}
 	e.next = no.Node
 	e.invalidateCache()
 }
